@@ -32,9 +32,8 @@ def spec_undollar(text):
     out.append(text[pos:])
     nodollar = ''.join(out)
     # a `$` inside a string or a comment is literal: find candidates that fall inside such tokens
-    lines = nodollar.split('\n')
-    starts = [0]
-    for ln in lines:
+    starts = [0]                    # tokenize reads lines from StringIO: they end at \n only
+    for ln in nodollar.split('\n'):
       starts.append(starts[-1] + len(ln) + 1)
     inside = []
     try:
@@ -44,7 +43,7 @@ def spec_undollar(text):
           b = starts[tok.end[0] - 1] + tok.end[1]
           inside.append((a, b))
     except (tokenize.TokenError, SyntaxError, IndentationError):
-      return None
+      return nodollar, cand         # not tokenizable as it stands (the parser decides later): every `$name` counts
     bad = [d for d in cand if any(a <= newpos[d] < b for a, b in inside)]
     if not bad:
       return nodollar, cand
@@ -66,7 +65,8 @@ def is_name(n, *names):
 
 def spec_entities(kind, body, nodollar):
   """[(type, start offset in nodollar, name, extra)] by the documented shapes."""
-  lines = [l.encode('utf8') for l in nodollar.splitlines(True)]
+  # lines as the parser counts them: \n, \r\n and \r end a line (str.splitlines would also split at \x0c, \x85, ...)
+  lines = [l.encode('utf8') for l in re.findall(r'[^\r\n]*(?:\r\n|\r|\n)|[^\r\n]+$', nodollar)]
   out = []
   for n in ast.walk(body):
     if not isinstance(n, ast.Attribute):
